@@ -54,15 +54,22 @@ theorem scanDouble_dec (neg : Bool) (ip fp f : List Nat) (hip : ∀ b ∈ ip, is
     simp only [spanMantissa, hspan1]
     simp only [List.cons_append] at hspan2 ⊢
     rw [hspan2]
-  have hspec : floatSpecial (d :: ip' ++ (46 :: fp ++ f)) = false := by
-    simp only [List.cons_append, floatSpecial, Bool.or_eq_false_iff, beq_eq_false_iff_ne, Bool.and_eq_false_iff]
-    refine ⟨⟨⟨⟨by omega, by omega⟩, by omega⟩, by omega⟩, ?_⟩
-    cases ip' with
-    | nil => right; simp
-    | cons e t =>
-      have he : isDigit e = true := hip e (by simp)
-      have : 48 ≤ e ∧ e ≤ 57 := by simpa [isDigit] using he
-      right; simp; omega
+  have hlow : ∀ e, 48 ≤ e ∧ e ≤ 57 → lower e = e := by
+    intro e he; simp only [lower]; split <;> omega
+  have hspec : floatSpecial (d :: ip' ++ (46 :: fp ++ f)) = none := by
+    simp only [List.cons_append, floatSpecial, hlow d hd']
+    have h1 : ¬ d = 110 := by omega
+    have h2 : ¬ d = 105 := by omega
+    simp only [h1, h2, if_false]
+    split
+    · cases ip' with
+      | nil => simp [lower]
+      | cons e t =>
+        have he : isDigit e = true := hip e (by simp)
+        have he' : 48 ≤ e ∧ e ≤ 57 := by simpa [isDigit] using he
+        have : ¬ e = 120 := by omega
+        simp [hlow e he', this]
+    · rfl
   cases neg with
   | true =>
     simp only [if_true, List.cons_append, List.nil_append, List.append_assoc, scanDouble]
